@@ -107,6 +107,7 @@ func (r *Value) Pull(ctx context.Context, opts ...ReadOption) <-chan *ValueChang
 		if currentValue != nil {
 			change := &ValueChange{Value: currentValue, ChangeTime: changeTime, SeedValue: true, LastSeedValue: true}
 			change = change.filter(filter)
+			currentValue = change.Value // what the receiver holds, and what later changes are compared with
 			select {
 			case <-ctx.Done():
 				return // give up sending
